@@ -16,6 +16,8 @@ for dp, dn, fns in os.walk(root):
         if rel.endswith("__init__"):
             rel = rel[:-len("__init__")].rstrip(".") or "__init__"
         tree = ast.parse(open(path).read())
+        out[rel + ":"] = sorted({t.id for st in tree.body if isinstance(st, (ast.Assign, ast.AugAssign))
+                                 for t in ast.walk(st) if isinstance(t, ast.Name) and isinstance(t.ctx, ast.Store)})
         for n in tree.body:
             if isinstance(n, ast.ClassDef):
                 for c in n.body:
